@@ -44,14 +44,8 @@ fn c04_8a_rate_one_is_bit_exact_then_stops() {
     core::mem::forget(info); core::mem::forget(s); core::mem::forget(h);
 }
 
-// @ob id=C04.8b strength=bounded tier=quick bound="3 symbolic frames, sample_rate 1, dt 1, 4 callbacks" fn=sound/static_sound/sound.rs::StaticSound::{new,process,update_position,is_playing_backwards}
-// @req reverse playback from the start (start position 0), or forward playback from start position 1, or slice (1,3)
-// @ens reverse: frames 2,1,0 bit-exactly then silence; start position 1: frames 1,2; slice (1,3): frames 1,2 (never frame 0: nothing outside the slice is read)
-#[kani::proof]
-#[kani::unwind(8)]
-fn c04_8b_reverse_start_slice() {
+fn run_select(mode: u8) {
     let src = any_frames3();
-    let mode = kani::any::<u8>() % 3;
     let mut st = StaticSoundSettings::new();
     let mut slice = None;
     match mode { 0 => st.reverse = true, 1 => st.start_position = PlaybackPosition::Samples(1), _ => slice = Some((1, 3)) }
@@ -64,25 +58,37 @@ fn c04_8b_reverse_start_slice() {
         assert!(same(out, want[i]), "C04.8b: reverse / start position / slice select exactly the requested frames, bit-exactly");
         i += 1;
     }
-    kani::cover!(mode == 0);
-    kani::cover!(mode == 2);
+    kani::cover!(src[0].left != src[2].left);
     core::mem::forget(info); core::mem::forget(s); core::mem::forget(h);
 }
 
-// @ob id=C04.8c strength=bounded tier=quick bound="3 symbolic frames, sample_rate 1, dt 1, 6 callbacks; loop regions (0,2), (1,3), (1,2) in samples" fn=sound/static_sound/sound.rs::StaticSound::{new,process,update_position}
-// @req forward playback with a loop region
-// @ens the output wraps from the loop end straight to the loop start: (0,2): 0,1,0,1,0,1; (1,3): 0,1,2,1,2,1; (1,2): 0,1,1,1,1,1; the sound never stops
+// @ob id=C04.8b strength=bounded tier=quick bound="3 symbolic frames, sample_rate 1, dt 1, 4 callbacks" fn=sound/static_sound/sound.rs::StaticSound::{new,process,update_position,is_playing_backwards}
+// @req reverse playback from the start (start position 0)
+// @ens frames 2,1,0 bit-exactly then silence
 #[kani::proof]
-#[kani::unwind(9)]
-fn c04_8c_loops_wrap_exactly() {
+#[kani::unwind(8)]
+fn c04_8b_reverse() { run_select(0) }
+
+// @ob id=C04.8d strength=bounded tier=quick bound="3 symbolic frames, sample_rate 1, dt 1, 4 callbacks" fn=sound/static_sound/sound.rs::StaticSound::{new,process,update_position}
+// @req forward playback from start position 1 (in samples)
+// @ens frames 1,2 bit-exactly then silence (begins at the requested start position)
+#[kani::proof]
+#[kani::unwind(8)]
+fn c04_8d_start_position() { run_select(1) }
+
+// @ob id=C04.8e,C01.3x strength=bounded tier=quick bound="3 symbolic frames, sample_rate 1, dt 1, 4 callbacks" fn=sound/static_sound/sound.rs::StaticSound::{new,process,push_frame_to_resampler}
+// @req slice (1,3)
+// @ens frames 1,2 then silence: frame 0 is never emitted (nothing outside the slice is read)
+#[kani::proof]
+#[kani::unwind(8)]
+fn c04_8e_slice() { run_select(2) }
+
+fn run_loop(ls: usize, le: usize, idx: [usize; 6]) {
     let src = any_frames3();
-    let mode = kani::any::<u8>() % 3;
-    let (ls, le) = match mode { 0 => (0usize, 2usize), 1 => (1, 3), _ => (1, 2) };
     let mut st = StaticSoundSettings::new();
     st.loop_region = Some(Region { start: PlaybackPosition::Samples(ls), end: EndPosition::Custom(PlaybackPosition::Samples(le)) });
     let (mut s, h) = build(src, st, None);
     let info = empty_info();
-    let idx: [usize; 6] = match mode { 0 => [0, 1, 0, 1, 0, 1], 1 => [0, 1, 2, 1, 2, 1], _ => [0, 1, 1, 1, 1, 1] };
     let mut i = 0;
     while i < 6 {
         let out = s.process_one(1.0, &info);
@@ -90,18 +96,26 @@ fn c04_8c_loops_wrap_exactly() {
         assert!(!s.finished(), "C04.8c: a looping sound does not stop");
         i += 1;
     }
-    kani::cover!(mode == 1);
+    kani::cover!(src[0].left != src[1].left);
     core::mem::forget(info); core::mem::forget(s); core::mem::forget(h);
 }
 
-// @ob id=C03.4b,C12.5a strength=bounded tier=quick bound="3 symbolic frames; 2-frame output buffers; states Paused / WaitingToResume / Stopped or a pending Delayed start time" fn=sound/static_sound/sound.rs::<StaticSound as Sound>::process
-// @req a sound whose start time is still pending (Delayed 10 s), or that is Paused, WaitingToResume or Stopped (set through the real pause/resume/stop paths with zero-length fades)
-// @ens every output frame is exactly Frame::ZERO and the playback position does not advance: transport position, fractional position and the resampler window are unchanged
+// @ob id=C04.8c strength=bounded tier=quick bound="3 symbolic frames, sample_rate 1, dt 1, 6 callbacks; loop region (0,2) in samples" fn=sound/static_sound/sound.rs::StaticSound::{new,process,update_position}
+// @req forward playback with loop region [0,2)
+// @ens output 0,1,0,1,0,1: wraps from the loop end straight to the loop start; never stops
 #[kani::proof]
-#[kani::unwind(8)]
-fn c03_4b_silent_and_frozen_when_not_advancing() {
+#[kani::unwind(9)]
+fn c04_8c_loop_0_2() { run_loop(0, 2, [0, 1, 0, 1, 0, 1]) }
+
+// @ob id=C04.8f strength=bounded tier=quick bound="as C04.8c; loop region (1,3): loop end == length" fn=sound/static_sound/sound.rs::StaticSound::{new,process,update_position}
+// @req forward playback with loop region [1,3) (loop end == sound length)
+// @ens output 0,1,2,1,2,1
+#[kani::proof]
+#[kani::unwind(9)]
+fn c04_8f_loop_1_3() { run_loop(1, 3, [0, 1, 2, 1, 2, 1]) }
+
+fn run_frozen(mode: u8) {
     let src = any_frames3();
-    let mode = kani::any::<u8>() % 4;
     let mut st = StaticSoundSettings::new();
     if mode == 0 { st.start_time = StartTime::Delayed(Duration::from_secs(10)); }
     let (mut s, h) = build(src, st, None);
@@ -126,8 +140,34 @@ fn c03_4b_silent_and_frozen_when_not_advancing() {
     assert!(same(out[0], Frame::ZERO) && same(out[1], Frame::ZERO), "C03.4b: a sound that is not advancing emits exact silence");
     assert!(s.transport.position == p0 && s.fractional_position == f0 && s.resampler.current_frame_index() == r0, "C03.4b: and its position does not advance");
     assert!(h.state() == s.playback_state_manager.playback_state(), "C03.4b: the handle reports the sound's state");
-    kani::cover!(mode == 0);
-    kani::cover!(mode == 2);
-    kani::cover!(mode == 3);
+    kani::cover!(true);
     core::mem::forget(info); core::mem::forget(s); core::mem::forget(h);
 }
+
+// @ob id=C03.4b strength=bounded tier=quick bound="3 symbolic frames; 2-frame output buffer" fn=sound/static_sound/sound.rs::<StaticSound as Sound>::process
+// @req a sound whose start time is still pending (Delayed 10 s)
+// @ens output exactly Frame::ZERO; transport position, fractional position and resampler window unchanged
+#[kani::proof]
+#[kani::unwind(8)]
+fn c03_4b_pending_start_time() { run_frozen(0) }
+
+// @ob id=C03.4c,C12.5a strength=bounded tier=quick bound="3 symbolic frames; 2-frame output buffer; zero-length fade" fn=sound/static_sound/sound.rs::<StaticSound as Sound>::{process,on_start_processing}
+// @req a sound paused through the real pause path (zero-length fade)
+// @ens Paused after one update; then exact silence and a frozen position; the handle reports Paused
+#[kani::proof]
+#[kani::unwind(8)]
+fn c03_4c_paused() { run_frozen(1) }
+
+// @ob id=C03.4d strength=bounded tier=quick bound="as C03.4c" fn=sound/static_sound/sound.rs::<StaticSound as Sound>::process
+// @req paused, then resume_at(Delayed 10 s)
+// @ens WaitingToResume: exact silence, frozen position
+#[kani::proof]
+#[kani::unwind(8)]
+fn c03_4d_waiting_to_resume() { run_frozen(2) }
+
+// @ob id=C03.4e strength=bounded tier=quick bound="as C03.4c" fn=sound/static_sound/sound.rs::<StaticSound as Sound>::process
+// @req stopped through the real stop path (zero-length fade)
+// @ens Stopped after one update: finished, exact silence, frozen position; the handle reports Stopped
+#[kani::proof]
+#[kani::unwind(8)]
+fn c03_4e_stopped() { run_frozen(3) }
